@@ -777,7 +777,7 @@ def loop_as_comprehension(loop: ast.For, result: str):
     Returns None when the loop body has another shape."""
     import copy
 
-    if not isinstance(loop.target, ast.Name) or loop.orelse:
+    if not (isinstance(loop.target, ast.Name) or (isinstance(loop.target, ast.Tuple) and all(isinstance(e, ast.Name) for e in loop.target.elts))) or loop.orelse:
         return None
     env = {}
     body = list(loop.body)
@@ -853,6 +853,27 @@ def canon_tests(test, polarity=True):
                 t = ast.Compare(left=t.comparators[0], ops=[ast.Eq()], comparators=[t.left])
         out.append((U(t), p))
     return out
+
+
+def resolve_closure_aliases(model, closure_fi, expr):
+    """Names that a nested function reads from its enclosing function and that are there plain aliases of an attribute chain
+    (``grid = phase_field.grid``) are replaced by that chain, so rules see the same text whether or not the alias was introduced."""
+    parent = closure_fi.parent
+    if parent is None:
+        return expr
+    pv = view(model, parent)
+    own = {n.id for n in ast.walk(closure_fi.node) if isinstance(n, ast.Name) and isinstance(n.ctx, ast.Store)} | set(closure_fi.all_params)
+    at = pv.node_of(closure_fi.node)
+
+    class R(ast.NodeTransformer):
+        def visit_Name(self, n):
+            if isinstance(n.ctx, ast.Load) and n.id not in own and at is not None:
+                r = pv.single_def_value(n.id, at)
+                if r is not None and attr_chain(r[0]) is not None and isinstance(r[0], ast.Attribute) and n.id not in pv.mutated:
+                    return ast.copy_location(copy.deepcopy(r[0]), n)
+            return n
+
+    return R().visit(copy.deepcopy(expr))
 
 
 def truth_under(test, assume):
@@ -1116,3 +1137,77 @@ def enumerate_elem_subst(expr, loop):
             return n
 
     return R().visit(copy.deepcopy(expr))
+
+
+def element_index_form(target, it, index="__i"):
+    """For an iteration ``for TARGET in IT`` (loop or comprehension generator) return {variable name: AST of the element it
+    denotes, written with the common index ``index``} and the index range text, for the idioms that all mean "element i of each
+    sequence": ``i in range(N)`` / ``x in SEQ`` / ``i, x in enumerate(SEQ)`` / ``a, b in zip(SEQ1, SEQ2)``.  None if not recognised."""
+    import copy
+
+    idx = ast.Name(id=index, ctx=ast.Load())
+
+    def sub(seq):
+        return ast.Subscript(value=copy.deepcopy(seq), slice=copy.deepcopy(idx), ctx=ast.Load())
+
+    if isinstance(it, ast.Call) and isinstance(it.func, ast.Name):
+        fn = it.func.id
+        if fn == "range" and len(it.args) == 1 and isinstance(target, ast.Name):
+            return {target.id: copy.deepcopy(idx)}, ast.unparse(it.args[0])
+        if fn == "enumerate" and it.args and isinstance(target, ast.Tuple) and len(target.elts) == 2 and all(isinstance(e, ast.Name) for e in target.elts):
+            if len(it.args) > 1 and not (isinstance(it.args[1], ast.Constant) and it.args[1].value == 0):
+                return None
+            return {target.elts[0].id: copy.deepcopy(idx), target.elts[1].id: sub(it.args[0])}, f"len({ast.unparse(it.args[0])})"
+        if fn == "zip" and isinstance(target, ast.Tuple) and len(target.elts) == len(it.args) and all(isinstance(e, ast.Name) for e in target.elts) and not it.keywords:
+            return {e.id: sub(a) for e, a in zip(target.elts, it.args)}, "zip:" + ",".join(ast.unparse(a) for a in it.args)
+        return None
+    if isinstance(target, ast.Name) and isinstance(it, (ast.Name, ast.Attribute)):
+        return {target.id: sub(it)}, f"len({ast.unparse(it)})"
+    return None
+
+
+def terminal_values(fv, name, at, depth=6, stop=()):
+    """set of expression texts ``name`` may hold at ``at``: every reaching plain definition is followed through renames and
+    temporaries (each with all of *its* reaching definitions), so a value routed through helpers' locals resolves to the
+    expressions it was originally computed from.  None when some definition is not a plain assignment."""
+    node = at if isinstance(at, Node) else fv.node_of(at)
+    if node is None:
+        return None
+    out = set()
+
+    def rec(nm, nd, d_left):
+        defs = fv.defs_reaching(nm, nd)
+        if not defs:
+            return False
+        for d in defs:
+            if d is fv.cfg.entry or d.stmt is None:
+                out.add(nm)
+                continue
+            v = fv.value_of_def(d, nm)
+            if v is None or d.kind in ("loop", "with", "handler"):
+                return False
+            inner = [x for x in ast.walk(v) if isinstance(x, ast.Name) and isinstance(x.ctx, ast.Load) and x.id not in stop]
+            # a pure rename / component of a renamed tuple: follow it
+            base = v
+            while isinstance(base, ast.Subscript):
+                base = base.value
+            if isinstance(base, ast.Name) and base.id not in stop and d_left > 0 and base.id != nm:
+                sub = terminal_values(fv, base.id, d, d_left - 1, stop)
+                if sub is None:
+                    return False
+                tail = U(v)[len(base.id):]
+                for t in sub:
+                    # (a, b)[0] → a
+                    txt = t + tail
+                    try:
+                        tn = ast.parse(txt, mode="eval").body
+                        if isinstance(tn, ast.Subscript) and isinstance(tn.value, ast.Tuple) and isinstance(tn.slice, ast.Constant) and isinstance(tn.slice.value, int):
+                            txt = U(tn.value.elts[tn.slice.value])
+                    except (SyntaxError, IndexError):
+                        pass
+                    out.add(txt)
+                continue
+            out.add(U(v))
+        return True
+
+    return out if rec(name, node, depth) else None
